@@ -434,6 +434,45 @@ def vertexOf (m : AMesh) (k : Nat) : Vertex :=
 
 def verticesOf (m : AMesh) : List Vertex := (List.range m.vertexCount.toNat).map (vertexOf m)
 
+/-! `vertexOf` walks the stream list from its head for every element (quadratic in the vertex
+count when compiled).  The compiled driver uses the array-based `verticesOfA`, proved equal
+(`@[csimp]`); theorems keep talking about `verticesOf`. -/
+
+/-- `(l.drop off).take n` through an array -/
+def sliceA (a : Array UInt8) (off n : Nat) : Bytes := (a.extract off (off + n)).toList
+
+theorem sliceA_eq (l : Bytes) (off n : Nat) : sliceA l.toArray off n = (l.drop off).take n := by
+  simp [sliceA, List.extract_eq_take_drop]
+
+def vertexOfA (m : AMesh) (arrs : Array (AStream × Array UInt8)) (k : Nat) : Vertex :=
+  m.decl.foldl (fun v e =>
+    match arrs[e.stream.toNat]? with
+    | some (s, a) =>
+      stdDecode e.vertexUsage e.vertexType
+        (sliceA a (k * s.stride.toNat + e.offset.toNat) (elemSize e)) v
+    | none => v) Vertex.default
+
+def verticesOfA (m : AMesh) : List Vertex :=
+  let arrs := (m.streams.map fun s => (s, s.data.toArray)).toArray
+  (List.range m.vertexCount.toNat).map (vertexOfA m arrs)
+
+theorem vertexOfA_eq (m : AMesh) (k : Nat) :
+    vertexOfA m (m.streams.map fun s => (s, s.data.toArray)).toArray k = vertexOf m k := by
+  unfold vertexOfA vertexOf
+  congr 1
+  funext v e
+  simp only [List.getElem?_toArray, List.getElem?_map]
+  cases m.streams[e.stream.toNat]? with
+  | none => rfl
+  | some s => simp [sliceA_eq]
+
+@[csimp] theorem verticesOf_eq_A : @verticesOf = @verticesOfA := by
+  funext m
+  simp only [verticesOf, verticesOfA]
+  congr 1
+  funext k
+  exact (vertexOfA_eq m k).symm
+
 /-- the shapes reported for a mesh (mirrors the selection rule of the format as implemented by
 Penumbra's MeshExporter, which the code cites) — see `Model/Mdl.lean` for the code's version.
 `start` = the mesh's first index in the LOD's index section. -/
